@@ -591,7 +591,7 @@ def check(run):
     witnesses(run)
     structured(run, ("kotlin", "java") if quick else ("kotlin", "java", "scala", "groovy"), 4 if quick else 12,
                12 if quick else 40)
-    synthetic(run, 26 if quick else 320, 40 if quick else 60)
+    synthetic(run, 22 if quick else 320, 40 if quick else 60)
     generator_stream(run, 12 if quick else 96)
     if not proofs_ok and not run.violations:
         run.violation({"kind": "broken-proof", "obligations": run.broken}, signature="proof", no_input=True)
